@@ -305,7 +305,8 @@ class Type4Tag(nfc.tag.Tag):
                 # only short APDU length fields can be sent
                 self._max_le = min(mle, 256)
                 self._max_lc = min(mlc, 255)
-            self._capacity = mfs - tag + 2
+            # READ and UPDATE BINARY offsets are limited to 15 bit
+            self._capacity = min(mfs, 0x8000) - tag + 2
             self._readable = bool(rf == 0)
             self._writeable = bool(wf == 0)
             self._nlen_size = tag - 2
